@@ -4,7 +4,7 @@ from driver import Unit as U, LIBS, VERIF
 
 SRC = 'mon/C15_config.cpp'
 MACROS = ['CXX98', 'CXX03', 'CXX11', 'CXX14', 'CXX17', 'CXX20', 'CXX_UNKNOWN', 'INLINE', 'EXPLICIT_CTOR', 'CTOR_INIT', 'SIZE_T_LENGTH',
-          'XYZW_ONLY', 'SWIZZLE', 'UNRESTRICTED_GENTYPE', 'QUAT_DATA_WXYZ', 'ALIGNED_GENTYPES', 'DEFAULT_ALIGNED_GENTYPES',
+          'XYZW_ONLY', 'SWIZZLE', 'UNRESTRICTED_GENTYPE', 'QUAT_DATA_WXYZ', 'QUAT_DATA_XYZW', 'ALIGNED_GENTYPES', 'DEFAULT_ALIGNED_GENTYPES',
           'ARCH_UNKNOWN', 'COMPILER_UNKNOWN', 'PLATFORM_UNKNOWN', 'PURE']
 PAIRS = [('CXX98', 'QUAT_DATA_WXYZ'), ('PURE', 'SWIZZLE'), ('CTOR_INIT', 'SIZE_T_LENGTH'), ('INLINE', 'XYZW_ONLY'), ('CXX11', 'EXPLICIT_CTOR'),
          ('ARCH_UNKNOWN', 'COMPILER_UNKNOWN'), ('CXX14', 'UNRESTRICTED_GENTYPE'), ('PLATFORM_UNKNOWN', 'CXX_UNKNOWN')]
@@ -25,6 +25,9 @@ def spec(th, seed):
     units = unit('default.O2', 'plain', [], None) + unit('default.O0', 'plainO0', [], None) + unit('default.O3', 'plainO3', [], None)
     for m in MACROS:
         units.extend(unit(m, 'plain', ['-DGLM_FORCE_' + m], None))
+    # pairs that touch the same code (quaternion member order x constructor order x default initialisation)
+    for a, b in (('CTOR_INIT', 'QUAT_DATA_WXYZ'), ('QUAT_DATA_WXYZ', 'QUAT_DATA_XYZW')):
+        units.extend(unit(a + '+' + b, 'plain', ['-DGLM_FORCE_' + a, '-DGLM_FORCE_' + b], None))
     if th:
         units.extend(unit('default.O1', 'plainO1', [], None))
         units.extend(unit('default.clang', 'clang', [], None))
